@@ -8,6 +8,7 @@
 #include <tins/pppoe.h>
 #include <tins/mpls.h>
 #include <tins/pdu_cacher.h>
+#include <tins/rtp.h>
 
 typedef std::vector<uint8_t> Bytes;
 // region monitor (hook H1): a layer that changes bytes of its inner layers while serialising is reported here
@@ -88,6 +89,8 @@ static PDU* extra(int id, vh::Rng& rng, Entry& e) {
     case 136: { Dot1Q q(5, false); return (eth0() / q / ip0() / UDP(7, 9) / raw(rng, rng.range(0, 12))).clone(); }
     case 137: { Dot1Q q1(7); q1.append_padding(false); Dot1Q q2(8, false); return (eth0() / q1 / q2 / ARP("192.0.2.1", "192.0.2.2", "00:aa:bb:cc:dd:ee", "00:11:22:33:44:55")).clone(); }
     case 138: { Dot1Q q(5, false); EthernetII parsed; { Bytes b0 = (eth0() / q / ip0() / UDP(7, 9) / raw(rng, rng.range(0, 12))).serialize(); parsed = EthernetII(&b0[0], (uint32_t)b0.size()); } return parsed.clone(); }
+    // PPPoE discovery packet with tags AND a payload layer behind them: the length field counts both
+    case 139: { PPPoE p; p.code(0x09); p.service_name("svc"); p.host_uniq(std::vector<uint8_t>(5, 0x33)); return (eth0() / p / raw(rng, rng.range(1, 30))).clone(); }
     // ---- C02 only (the dissector of C05 has nothing to say about them): a PDUCacher with layers stacked below it, and objects
     //      whose type was changed after extensions / options had been added
     // (a transport layer directly below a PDUCacher<IP> is not generated: TCP/UDP tins_cast their parent to IP, and the wrapper
@@ -95,6 +98,11 @@ static PDU* extra(int id, vh::Rng& rng, Entry& e) {
     case 141: { PDUCacher<UDP> c(UDP(7, 9)); c /= raw(rng, rng.range(1, 40)); return (eth0() / ip0() / c).clone(); }
     case 142: { ICMP ic(ICMP::TIME_EXCEEDED); ic.extensions().add_extension(some_ext(rng)); Bytes q = quoted4(rng, 4 * rng.range(0, 40)); ic.type(ICMP::ECHO_REPLY); return (eth0() / ip0() / ic / RawPDU(q.begin(), q.end())).clone(); }
     case 143: { ICMPv6 ic(ICMPv6::TIME_EXCEEDED); ic.extensions().add_extension(some_ext(rng)); Bytes q = quoted6(rng, 8 * rng.range(0, 14)); ic.type(ICMPv6::ECHO_REPLY); return (eth0() / ip60() / ic / RawPDU(q.begin(), q.end())).clone(); }
+    // an RTP packet with padding whose payload is more than one layer; an AH whose ICV is not a multiple of 4 octets (with and without
+    // a layer behind it): what size() promises and where each layer writes
+    case 144: { RTP r; r.payload_type(96); r.padding_size((uint8_t)rng.range(1, 8)); return (eth0() / ip0() / UDP(5004, 5004) / r / raw(rng, rng.range(1, 12)) / raw(rng, rng.range(1, 12))).clone(); }
+    case 145: { IPSecAH ah; ah.spi(7); ah.seq_number(9); ah.icv(byte_array((size_t)(rng.coin() ? 13 : 6), 0x5a)); return (eth0() / ip60() / ah / UDP(7, 9) / raw(rng, rng.range(1, 20))).clone(); }
+    case 146: { IPSecAH ah; ah.spi(7); ah.icv(byte_array((size_t)rng.range(1, 15), 0x5a)); return (eth0() / ip0() / ah).clone(); }
     case 128: { IP ip = ip0(); ip.add_option(IP::option(IP::option_identifier(IP::NOOP, IP::CONTROL, 0))); ICMP ic(ICMP::TIME_EXCEEDED); ic.extensions().add_extension(some_ext(rng)); ic.use_length_field(true); Bytes q = quoted4(rng, 4 * rng.range(20, 40));
                 return (eth0() / ip / ic / RawPDU(q.begin(), q.end())).clone(); }
     }
